@@ -181,9 +181,11 @@ def run_case(job):
     except (ValueError, AttributeError):
         pass
 
+    rto = getattr(h, 'replay_timeout_s', 120)
+
     def replay(inp_c):
         res['replays'] += 1
-        return rc.call(hname, params, spec.enc(inp_c))
+        return rc.call(hname, params, spec.enc(inp_c), timeout=rto)
 
     if hasattr(h, 'decide'):
         # engines other than S (LR-BMC, ...) decide the case themselves and use the common replay / reporting
